@@ -3,7 +3,7 @@
 pub enum Role { LOCKFILE, STAGING_DIR, CAS_DIR, DB_DIR, QUARANTINE_DIR, CAS_SUBDIR, DIR_OF_BLOB,
     STAGING, BLOB, QUARANTINE, WALSEG, OLDSEG, SNAP_TMP, SNAP, TMP, TMP_FILE, TARGET, SETTINGS, INVALID_OR_STAGING_LEFTOVER, UNKNOWN }
 
-pub enum F { Intents, StateW, StateR, Wal, CsApplied, CsFiltered, CsOrphanOk, SyncMode, StagingFlushed, StagingSynced, BlobAtFinal, IntentRegistered, GuardAlive, WalWritten, WalFlushed, WalDurable, Applied, TmpWritten, TmpSynced, TargetRenamed, SnapSaved, NewsegCreated, NewsegSynced, Deleted, ToDeleteNonempty, OwnsDirlock, StoredExists, SettingsMatch, WantPrecreate, DirsPrecreated, Looked }
+pub enum F { Intents, StateW, StateR, Wal, CsApplied, CsFiltered, CsOrphanOk, SyncMode, StagingFlushed, StagingSynced, BlobAtFinal, IntentRegistered, GuardAlive, WalWritten, WalFlushed, WalDurable, Applied, TmpWritten, TmpSynced, TargetRenamed, SnapSaved, NewsegCreated, NewsegSynced, Deleted, ToDeleteNonempty, OwnsDirlock, StoredExists, SettingsMatch, WantPrecreate, DirsPrecreated, Looked, RenameTried }
 /// the World is the set of flags that are currently true (see DESIGN.md Appendix A for their meaning)
 pub struct World { pub s: Set<F> }
 impl World {
@@ -143,7 +143,7 @@ pub open spec fn is_dir_role(r: Role) -> bool { r == Role::STAGING_DIR || r == R
         /*atomic_replace_requires_written_synced_temp*/ src == Role::TMP ==> old(w).has(F::TmpWritten) && old(w).has(F::TmpSynced) && old(w).has(F::OwnsDirlock),
         /*quarantine_requires_revalidation*/ src == Role::BLOB ==> old(w).has(F::Intents) && old(w).has(F::CsOrphanOk),
     ensures
-        src == Role::STAGING ==> *final(w) == (old(w).set(F::BlobAtFinal, ok || old(w).has(F::BlobAtFinal))),
+        src == Role::STAGING ==> *final(w) == (old(w).set(F::BlobAtFinal, ok || old(w).has(F::BlobAtFinal)).set(F::RenameTried, true)),
         src == Role::TMP ==> *final(w) == (old(w).set(F::TargetRenamed, ok)),
         src == Role::BLOB ==> *final(w) == *old(w) { unimplemented!() }
 #[verifier::external_body] pub fn ev_remove_file(w: &mut World, r: Role) -> (ok: bool)
@@ -151,6 +151,7 @@ pub open spec fn is_dir_role(r: Role) -> bool { r == Role::STAGING_DIR || r == R
         /*remove_roles_closed*/ r == Role::BLOB || r == Role::STAGING || r == Role::OLDSEG || r == Role::INVALID_OR_STAGING_LEFTOVER,
         /*blob_unlink_requires_protocol*/ r == Role::BLOB ==> old(w).has(F::Intents) && ((old(w).has(F::CsFiltered) && old(w).has(F::CsApplied) && old(w).has(F::WalDurable)) || old(w).has(F::CsOrphanOk)),
         /*segment_unlink_requires_saved_snapshot*/ r == Role::OLDSEG ==> old(w).has(F::SnapSaved),
+        /*staged_copy_dropped_only_after_failed_rename*/ r == Role::STAGING ==> old(w).has(F::RenameTried),
     ensures *final(w) == (if r == Role::STAGING { old(w).set(F::BlobAtFinal, ok || old(w).has(F::BlobAtFinal)) } else { *old(w) }) { unimplemented!() }
 #[verifier::external_body] pub fn ev_try_lock(w: &mut World, r: Role) -> (ok: bool)
     requires r == Role::LOCKFILE,
